@@ -63,6 +63,7 @@ struct CbCtx {
   std::vector<int> toks;
   size_t tpos = 0;
   long eof_at = -1;
+  long eof_calls = 0;
   int attr_cells[4096];
   // syntax errors
   std::vector<SynErr> syn;
@@ -156,6 +157,7 @@ static int cb_read_token(void **attr) {
   C.callbacks++;
   if ((long)C.tpos == C.eof_at || C.tpos >= C.toks.size()) {
     *attr = nullptr;
+    C.eof_calls++;
     return -1;
   }
   size_t i = C.tpos++;
@@ -392,7 +394,8 @@ struct Exec {
       return;
     }
     Violation v;
-    v.prop = prop; v.kind = kind; v.site = site; v.detail = detail; v.op = cur_op; v.backend = be; v.probe = probe;
+    v.prop = prop; v.kind = kind; v.site = site; v.detail = detail; v.op = cur_op; v.backend = be;
+    v.probe = probe || plan.early_free || plan.probe_reuse; // a probe run as a whole is non-gating
     if (res.violations.size() < 64) res.violations.push_back(v);
   }
   void probe(const char *name) { res.stats.probes[name]++; }
@@ -621,6 +624,21 @@ struct Exec {
     }
   }
 
+  // a parse must not change what the setters report
+  void check_settings_unchanged(ObjRec *o, const char *site) {
+    static const int probe_vals[6] = {2, 1, 0, 1, 0, 1};
+    for (int s = 0; s < 6; s++) {
+      int old = -999, back = -999;
+      void *h = o->h;
+      int pv = probe_vals[s];
+      guarded([&] { old = api->set(h, s, pv); back = api->set(h, s, old); });
+      if (old != o->m.set[s])
+        viol("C15", "setter_return", site, "after the call the setter of setting " + std::to_string(s) + " returns " + std::to_string(old) +
+                                               " as previous value, the caller had set " + std::to_string(o->m.set[s]));
+      (void)back;
+    }
+  }
+
   void op_set(const Op &op) {
     ObjRec *o = obj_of(op.task, op.obj);
     // setters only touch the grammar structure: they are safe (and meaningful) on an object struck by an allocation failure
@@ -746,6 +764,7 @@ struct Exec {
     C.toks = in;
     C.tpos = 0;
     C.eof_at = -1;
+    C.eof_calls = 0;
     if (op.fault.type == Fault::BADTOK) {
       size_t pos = (size_t)op.fault.k;
       if (pos >= C.toks.size()) C.toks.push_back(op.fault.code);
@@ -885,6 +904,9 @@ struct Exec {
       if (C.toks[i] < 0) break;
       if (!o->m.codes.count(C.toks[i])) { first_bad = (long)i; break; }
     }
+    if (undefined && !nullalloc && o->m.gidx != -1 && rc != YAEP_UNDEFINED_OR_BAD_GRAMMAR && !fired)
+      viol("C14", "usable_after_failed_definition", "PARSE", "the last definition of the object failed, yaep_parse returned " + std::to_string(rc) +
+                                                                 " instead of YAEP_UNDEFINED_OR_BAD_GRAMMAR");
     if (nullalloc) accept.insert(YAEP_NO_MEMORY);
     if (undefined) accept.insert(YAEP_UNDEFINED_OR_BAD_GRAMMAR);
     if (!undefined && first_bad >= 0) accept.insert(YAEP_INVALID_TOKEN_CODE);
@@ -899,6 +921,15 @@ struct Exec {
            "PARSE", "yaep_parse returned " + std::to_string(rc) + ", documented result is " + want +
                         (first_bad >= 0 ? " (undeclared code " + std::to_string(C.toks[(size_t)first_bad]) + " at position " + std::to_string(first_bad) + ")" : ""));
     }
+    // "a negative code ends the input": the reader is asked until it delivers a negative code (or an invalid one)
+    if (!undefined && !nullalloc && !fired) {
+      size_t want = first_bad >= 0 ? (size_t)first_bad + 1 : (C.eof_at >= 0 && (size_t)C.eof_at < C.toks.size() ? (size_t)C.eof_at : C.toks.size());
+      if (C.tpos != want || (first_bad < 0 && C.eof_calls != 1))
+        viol("C15", "input_not_read_to_end", "PARSE", "read_token was asked for " + std::to_string(C.tpos) + " tokens and " + std::to_string(C.eof_calls) +
+                                                          " end markers; the input has " + std::to_string(want) + " tokens before its " +
+                                                          (first_bad >= 0 ? "first invalid code" : "end"));
+    }
+    if (!fired && o->alive && o->h) check_settings_unchanged(o, "PARSE");
     if (rc != 0) {
       res.stats.faults[rc == 17 ? "invalid_token" : rc == 2 ? "parse_undefined" : rc == 1 ? "null_alloc_misuse" : "parse_error_other"]++;
       if (code != rc) viol("C15", "error_code", "PARSE", "yaep_parse returned " + std::to_string(rc) + " but yaep_error_code is " + std::to_string(code));
